@@ -101,4 +101,26 @@ theorem sranked_of_acyclic (p : Prog) (hac : cyclic (buildGraph p.out) = false) 
       exact Output.ConfigDep.dec hs htg hi (by have := hname; simp at this; exact this.symm) (argsDep_of_argDep p _ a ha (hw.2 dc hdc a ha) d h)
   exact Output.path_of_configDep p.out _ _ hcd
 
+/-- **the resolvers record what the runtime will fetch**: an argument the first-match chain resolves successfully keeps its
+declared value, and when it is an `@service` / `!tagged` form the named service / tag is recorded as its dependency — so the
+arguments of a compiled configuration satisfy `ArgWF` -/
+theorem resolve_records_dependency (fns : List Token.FnDef) (st st' : Imports.St) (v : Val) (a : Output.Arg)
+    (h : Compile.resolve Compile.argChain fns st v = (st', .ok a)) : a.raw = v ∧ ArgWF a := by
+  unfold Compile.resolve at h
+  cases hf : Compile.argChain.find? (Compile.supports · v) with
+  | none => rw [hf] at h; simp at h
+  | some r =>
+    rw [hf] at h
+    simp only at h
+    have hraw : a.raw = v ∧ (r = .service → a.depServices ≠ []) ∧ (r = .tagged → a.depTags ≠ []) := by
+      cases r <;> cases v <;> simp only [Compile.resolveWith] at h <;>
+        first
+        | (simp at h; obtain ⟨_, rfl⟩ := h; simp)
+        | (split at h <;> simp at h <;> (try (obtain ⟨_, rfl⟩ := h; simp)))
+        | (split at h <;> (try (simp at h)) <;> (try (split at h <;> simp at h <;> (try (obtain ⟨_, rfl⟩ := h; simp)))))
+        | simp at h
+    refine ⟨hraw.1, ?_, ?_⟩
+    · intro hk; unfold argKind at hk; rw [hraw.1, hf] at hk; exact hraw.2.1 (by simpa using hk)
+    · intro hk; unfold argKind at hk; rw [hraw.1, hf] at hk; exact hraw.2.2 (by simpa using hk)
+
 end GM.Runtime
